@@ -13,13 +13,13 @@ REPO = os.path.join(SCRATCH, "repo")
 VERIF = os.path.join(SCRATCH, "verif")
 
 FILES = {
-    "src/solvers/preferred_semantics_solver.rs": ["C03", "C01"],
+    "src/solvers/preferred_semantics_solver.rs": ["C03", "C01", "C07", "C18"],
     "src/solvers/complete_semantics_solver.rs": ["C02", "C07", "C04"],
     "src/solvers/stable_semantics_solver.rs": ["C02", "C03", "C01", "C07"],
-    "src/solvers/maximal_range_semantics_solvers.rs": ["C02", "C03", "C04"],
-    "src/solvers/ideal_semantics_solver.rs": ["C02", "C01", "C04"],
+    "src/solvers/maximal_range_semantics_solvers.rs": ["C02", "C03", "C04", "C07", "C18"],
+    "src/solvers/ideal_semantics_solver.rs": ["C02", "C01", "C04", "C07"],
     "src/solvers/maximal_extension_computer.rs": ["C03", "C01", "C18"],
-    "src/solvers/grounded_semantics_solver.rs": ["C02", "C03", "C04"],
+    "src/solvers/grounded_semantics_solver.rs": ["C02", "C03", "C04", "C07"],
     "src/utils/grounded_extension_computer.rs": ["C01", "C11"],
     "src/utils/connected_components_computer.rs": ["C04", "C07", "C11"],
     "src/utils/equivalency_computer.rs": ["C19"],
@@ -39,7 +39,7 @@ FILES = {
     "src/io/iccma23_reader.rs": ["C13"],
     "src/io/aspartix_reader.rs": ["C13"],
     "src/io/aspartix_writer.rs": ["C14"],
-    "src/io/iccma23_writer.rs": ["C14", "C05"],
+    "src/io/iccma23_writer.rs": ["C14", "C05", "C04"],
     "src/sat/buffered_sat_solver.rs": ["C16", "C15", "C17"],
     "src/sat/external_sat_solver.rs": ["C16", "C15"],
     "src/sat/cadical_solver.rs": ["C15"],
